@@ -11,10 +11,15 @@ import Saltpack.Proofs.SenderStreamRun
 namespace Saltpack.Proofs.SenderP
 open Saltpack Saltpack.Sender
 
-/-- `flt` counts the failing `Write` calls of the underlying writer -/
+/-- `flt` counts the failed writes below `wr`: a `Write` that succeeds leaves it
+    unchanged, no `Write` lowers it.  (A failing `Write` need not raise it: a
+    writer that remembers its first error — the armor encoder stream since fix
+    5ad1caa — refuses later calls without any write below it.  For the scripted
+    writer `Wr` a failing write raises `faults` by exactly one: `wr_write_faults`
+    in SenderStreamArmor.lean.) -/
 structure FltWriter {ω : Type} (wr : ω → Bytes → Bool × ω) (flt : ω → Nat) : Prop where
   ok : ∀ w p w', wr w p = (true, w') → flt w' = flt w
-  fail : ∀ w p w', wr w p = (false, w') → flt w' = flt w + 1
+  fail : ∀ w p w', wr w p = (false, w') → flt w ≤ flt w'
 
 theorem wr_flt : FltWriter Wr.write Wr.faults := by
   constructor
@@ -34,30 +39,35 @@ theorem wr_flt : FltWriter Wr.write Wr.faults := by
     | cons f rest =>
       simp only [hs] at h
       cases f with
-      | true => simp only [if_true] at h; obtain ⟨_, rfl⟩ := Prod.mk.inj h; rfl
+      | true => simp only [if_true] at h; obtain ⟨_, rfl⟩ := Prod.mk.inj h; exact Nat.le_succ _
       | false => simp at h
 
 section faults
 variable {ω : Type} (wr : ω → Bytes → Bool × ω) (flt : ω → Nat)
 
 theorem writePieces_flt (hw : FltWriter wr flt) : ∀ (ps : List Bytes) (w : ω),
-    flt (writePieces wr ps w).2 = flt w + (if (writePieces wr ps w).1 then 0 else 1) := by
+    ((writePieces wr ps w).1 = true → flt (writePieces wr ps w).2 = flt w) ∧
+    flt w ≤ flt (writePieces wr ps w).2 := by
   intro ps
   induction ps with
-  | nil => intro w; simp [writePieces]
+  | nil => intro w; exact ⟨fun _ => rfl, Nat.le_refl _⟩
   | cons p ps ih =>
     intro w
     unfold writePieces
     cases h : wr w p with
     | mk ok w' =>
       cases ok with
-      | true => simp only; rw [ih w', hw.ok w p w' h]
-      | false => simp only; rw [hw.fail w p w' h]; simp
+      | true =>
+        simp only
+        have h0 := hw.ok w p w' h
+        obtain ⟨i1, i2⟩ := ih w'
+        exact ⟨fun hh => by rw [i1 hh, h0], by omega⟩
+      | false => exact ⟨fun hh => (by cases hh), hw.fail w p w' h⟩
 
-/-- `Encode`: exactly one more fault iff it fails on a healthy encoder -/
+/-- `Encode`: success ⇒ no fault during it; the fault count never goes down -/
 theorem encode_flt (hw : FltWriter wr flt) (pieces : Bytes → List Bytes) (c : Codec ω) (b : Bytes) :
-    flt (Codec.encode wr pieces c b).2.w =
-      flt c.w + (if c.failed then 0 else if (Codec.encode wr pieces c b).1 then 0 else 1) := by
+    ((Codec.encode wr pieces c b).1 = true → flt (Codec.encode wr pieces c b).2.w = flt c.w) ∧
+    flt c.w ≤ flt (Codec.encode wr pieces c b).2.w := by
   unfold Codec.encode
   by_cases hf : c.failed = true
   · simp [hf]
@@ -97,21 +107,19 @@ theorem emit_flt (hw : FltWriter wr flt) (cfg : Cfg) (f : Bool) (st : PSt ω) :
           simp only [he] at hres
           cases ok with
           | true =>
-            simp only at hres hfl
+            simp only at hres
             subst hres
             have hh := encode_true_healthy wr cfg.pieces st.codec b (by rw [he])
             rw [he] at hh
-            simp only [hh.1, Bool.false_eq_true, if_false, if_true, Nat.add_zero] at hfl
-            refine ⟨fun _ => hfl, fun h => absurd hfl h, fun h => ?_, by simp only; omega⟩
+            have hfl := hfl.1 rfl
+            refine ⟨fun _ => hfl, fun h => absurd hfl h, fun h => ?_, Nat.le_of_eq hfl.symm⟩
             rw [hh.1] at h; cases h
           | false =>
-            simp only at hres hfl
+            simp only at hres
             subst hres
             have hf := encode_false_failed wr cfg.pieces st.codec b (by rw [he])
             rw [he] at hf
-            refine ⟨(fun h => by cases h), fun _ => hf, fun _ => hf, ?_⟩
-            simp only
-            rw [hfl]; omega
+            exact ⟨(fun h => by cases h), fun _ => hf, fun _ => hf, hfl.2⟩
 
 theorem writeLoop_flt (hw : FltWriter wr flt) (cfg : Cfg) (len : Nat) : ∀ (fuel : Nat) (st : PSt ω),
     ((writeLoop wr cfg len fuel st).2.1 = none → flt (writeLoop wr cfg len fuel st).2.2.codec.w = flt st.codec.w) ∧
@@ -218,10 +226,9 @@ theorem faultSeen_init (hw : FltWriter wr flt) (pieces : Bytes → List Bytes) (
   cases he : Codec.encode wr pieces ({ w := w0 } : Codec ω) (headerPacket hbytes) with
   | mk ok c =>
     rw [he] at hfl
-    simp only [Bool.false_eq_true, if_false] at hfl
     cases ok with
     | true =>
-      simp only [if_true, Nat.add_zero] at hfl
+      have hfl := hfl.1 rfl
       exact ⟨fun h => absurd hfl h, fun _ => hfl⟩
     | false =>
       have hf := encode_false_failed wr pieces ({ w := w0 } : Codec ω) (headerPacket hbytes) (by rw [he])
